@@ -1,5 +1,5 @@
 """C17 - every column is reachable by exactly one advertised, valid accessor name."""
-import keyword
+import keyword, re
 from vp import h as H
 from vp.h import Vector, Table
 
@@ -61,6 +61,27 @@ def check_table(t, names, what):
     """All accessor obligations for one table whose stored names should be `names`."""
     W = len(names)
     if t.column_names() != list(names): return '%s: column_names() %r, expected %r' % (what, t.column_names(), names)
+    # First, WITHOUT having asked dir() (which may refresh cached state): a column whose stored name is already a plain,
+    # unreserved, unrepeated identifier is reachable under exactly that name - by row attribute, as item-assignment key and by getattr
+    api0 = public_api(); low = set(n.lower() for n in api0)
+    for j, nm in enumerate(names):
+        plain = isinstance(nm, str) and re.match(r'^[a-z][a-z0-9]*$', nm) and nm not in low and not keyword.iskeyword(nm) and list(names).count(nm) == 1 \
+            and not any(isinstance(o, str) and o != nm and doc_sanitize(o) == nm for o in names)
+        if not plain or len(t) == 0: continue
+        try:
+            rv = getattr(t[0], nm)
+        except Exception as e:
+            return '%s: row attribute .%s (the stored name of column %d) raised %r (names %r)' % (what, nm, j, e, names)
+        if rv != list(t.cols()[j])[0]: return '%s: row attribute .%s read %r, column %d holds %r' % (what, nm, rv, j, list(t.cols()[j])[0])
+        try:
+            t[0, nm] = rv
+        except Exception as e:
+            return '%s: t[0, %r] = x raised %r (names %r)' % (what, nm, e, names)
+        try:
+            col = getattr(t, nm)
+        except Exception as e:
+            return '%s: attribute .%s raised %r (names %r)' % (what, nm, e, names)
+        if col is not t.cols()[j]: return '%s: attribute .%s is not column %d (names %r)' % (what, nm, j, names)
     adv = advertised(t)
     api = public_api()
     cols = t.cols()
